@@ -117,6 +117,7 @@ def check(ctx):
     ctx.rule("R2", "every BoolOp the grammar builds from and/or/&&/|| passes through _mark_boolop_subproc_values, which tags each direct subprocess operand with in_boolop=True", floor=5)
     ctx.rule("R3", "wrapper coverage: raising helpers = all helpers minus !(); value statements covered; only the outermost chain is wrapped (flag restored in finally); the wrapper pass runs on every transformed parse", floor=6)
     ctx.rule("R4", "token -> helper -> capture kind agree across grammar, built_ins and specs; in_boolop is forwarded; non-pipeline helpers check the last pipeline after running", floor=14)
+    ctx.rule("R7", "the pipeline the raise decision falls back to is the one the statement ran: helpers that return a string / None / a list ($(), $[], @$()) are judged through XSH.lastcmd, so on every path of _run_specs that ends the pipeline and returns something else than the pipeline, `lastcmd` is (re)assigned to that pipeline *after* it was ended - a callable-alias stage runs nested commands while it is being ended, and each of them sets lastcmd", floor=2)
     ctx.rule("R6", "every pipeline that is ended for the first time reaches the per-command raise decision (_raise_subproc_error) on every normal path - also one whose command could not be started", floor=1)
     ctx.rule("R5", "XSH.exit is honoured before and after a pipeline; an exception escaping a script / -c run yields a non-zero exit status; truthiness is returncode == 0 of the last stage", floor=5)
 
@@ -496,7 +497,37 @@ def check(ctx):
         raise AnchorMissing(f"{PL}:CommandPipeline.end: the ended flag")
     ok, path = ecfg.must_pass([ecfg.entry], lambda m_: m_ in dec, exits=("exit",), skip_edge=ecfg.assume_edges([(a_, False) for a_ in ended_attr]))
     ctx.ob("R6", f"{PL}:CommandPipeline.end", f"every normal path of a first end() (not `{'/'.join(sorted(ended_attr))}`) passes _raise_subproc_error()", ok, key="end|raise-decision-skipped", where=loc(endf), path=ecfg.fmt_path(path) if path else None)
+    _lastcmd_is_the_statements_pipeline(ctx)
 
+
+
+def _lastcmd_is_the_statements_pipeline(ctx):
+    from ..engine import dtable as _dt
+
+    sp = ctx.repo.module(SP)
+    fn = flat(ctx, sp.func("_run_specs"), 1, skip=("_run_command_pipeline", "resume_process", "end"))
+    st = f"{SP}:_run_specs"
+    defs = df.all_defs(fn)
+    CP = names_bound_to_call(fn, lambda nm_: nm_.endswith("_run_command_pipeline"), defs)
+    if not CP:
+        raise AnalysisError(f"{st}: the local holding the pipeline was not found")
+    # (the path enumerator substitutes locals forward: the pipeline also appears as its defining call)
+    CP = set(CP) | {unparse(d.value) for nm_ in CP for d in defs.get(nm_, []) if d.value is not None}
+    n = 0
+    for p_ in _dt.paths(fn, stores=True, loops="skip"):
+        if p_.outcome != "return" or not _dt.feasible(p_):
+            continue
+        rv = unparse(p_.value) if p_.value is not None else "None"
+        ends = [i_ for i_, e in enumerate(p_.effects) if any(isinstance(c, ast.Call) and isinstance(c.func, ast.Attribute) and c.func.attr == "end" and unparse(c.func.value) in CP for c in ast.walk(e))]
+        if not ends or rv in CP:
+            continue  # not ended here, or the caller gets the pipeline itself and reads its own return code
+        n += 1
+        sets = [i_ for i_, e in enumerate(p_.effects) if isinstance(e, ast.Assign) and any(isinstance(t, ast.Attribute) and t.attr == "lastcmd" and unparse(t.value) == "XSH" for t in e.targets) and unparse(e.value) in CP]
+        ok = bool(sets) and max(sets) > max(ends)
+        conds = "; ".join(("" if pol else "not ") + unparse(e) for e, pol in p_.conds)
+        ctx.ob("R7", st, f"path returning `{rv[:30]}` ({conds[:80]}): XSH.lastcmd is set to the pipeline after `end()` returned", ok, key=f"_run_specs|lastcmd-before-end|{rv[:30]}", where=loc(fn))
+    if n < 2:
+        raise AnalysisError(f"{st}: only {n} ending paths with a non-pipeline result enumerated")
 
 META = {
     "technique": "static analysis: decision-table extraction (path enumeration + forward substitution, atoms classified into a small abstract domain) compared with a documented oracle; CFG must-pass-through for parser-side marking; table folding across grammar, built_ins and specs",
